@@ -600,4 +600,4 @@ impl From<ToolTaskStatus> for ApiToolTaskStatus {
 
 #[cfg(kani)]
 #[path = "/verif/harness/ripd/tasks__mod.rs"]
-mod verif_kani;
+pub mod verif_kani;
